@@ -63,7 +63,8 @@ pub struct Sched {
     /// runtime `block_on`; 2 `futures::executor::block_on` nested inside a multi-thread `block_on`; 3 the same inside
     /// `block_in_place`; 4 `LocalSet` on a current-thread runtime; 5 `LocalSet` on a multi-thread runtime; 6 current-thread
     /// `block_on`. Non-spawning kinds: 7 `futures::executor::block_on` outside every runtime; 8 tokio current-thread
-    /// `block_on`; 9 `futures::executor::LocalPool::run_until`.
+    /// `block_on`; 9 `futures::executor::LocalPool::run_until`. Task kinds again: 10 / 11 polled by tokio (current-thread /
+    /// multi-thread) next to a sibling future that exhausts the task's cooperative-scheduling budget in every poll.
     pub poll_ctx: u8,
 }
 
@@ -859,6 +860,28 @@ pub fn run_async_ctx(case: &Case, _exp: &Exp, plan: &Plan, sched: &Sched) -> Run
                     tokio::task::LocalSet::new().block_on(&rt, log::ROOT.scope(1, mk()))
                 }
                 6 | 8 => current().block_on(async { log::ROOT.scope(1, mk()).await }),
+                // 10 / 11: polled by tokio as a sibling of a future that uses up the task's cooperative-scheduling budget in
+                // every poll (a channel with a backlog): tokio resources polled afterwards in the same poll — the join
+                // handles of the macro's tasks — answer Pending *without registering the waker* and have to be polled again
+                10 | 11 => {
+                    let rt = if ctx == 10 { current() } else { multi() };
+                    rt.block_on(async {
+                        let (tx, mut rx) = tokio::sync::mpsc::unbounded_channel::<u32>();
+                        for i in 0..2000u32 {
+                            let _ = tx.send(i);
+                        }
+                        drop(tx);
+                        let drain = async move {
+                            let mut n = 0u32;
+                            while rx.recv().await.is_some() {
+                                n += 1;
+                            }
+                            n
+                        };
+                        let (_, o) = futures::join!(drain, log::ROOT.scope(1, mk()));
+                        o
+                    })
+                }
                 7 => futures::executor::block_on(log::ROOT.scope(1, mk())),
                 _ => futures::executor::LocalPool::new().run_until(log::ROOT.scope(1, mk())),
             }
